@@ -197,6 +197,9 @@ func Offsets(src []byte, max int) []int {
 func BoundaryOffsets(src []byte, max int) []int {
 	var out []int
 	for _, o := range Offsets(src, max) {
+		if o > 0 && o < len(src) && src[o-1] == '\r' && src[o] == '\n' {
+			continue // inside a CRLF pair (one grapheme cluster)
+		}
 		if o == len(src) || utf8.RuneStart(src[o]) {
 			out = append(out, o)
 		}
